@@ -9,6 +9,7 @@ import (
 	"go/token"
 	"go/types"
 	"sort"
+	"strconv"
 	"strings"
 
 	"golang.org/x/tools/go/ssa"
@@ -210,6 +211,15 @@ func simplify(t *Term) *Term {
 			return &Term{Op: "field", Name: a.Name, Args: a.Args, Val: t.Val}
 		case "elemaddr":
 			return &Term{Op: "elem", Args: a.Args, Val: t.Val}
+		}
+	case "elem":
+		// constant string indexed by a constant: the byte
+		if a, i := t.Args[0], t.Args[1]; a.Op == "const" && i.Op == "const" && strings.HasPrefix(a.Name, "\"") {
+			if s, err := strconv.Unquote(a.Name); err == nil {
+				if k, err := strconv.Atoi(i.Name); err == nil && k >= 0 && k < len(s) {
+					return &Term{Op: "const", Name: strconv.Itoa(int(s[k])), Val: t.Val}
+				}
+			}
 		}
 	case "eq":
 		if t.Args[0].String() > t.Args[1].String() {
